@@ -22,6 +22,11 @@ type Program struct {
 
 	base     *interpreter
 	baseOnce sync.Once
+
+	reflectOnce    sync.Once
+	reflectPackage *ssa.Package
+	rtypeMethods   methodSet
+	errorMethods   methodSet
 }
 
 // Load loads pattern from dir (the repo's current working tree), overlaying
